@@ -346,6 +346,15 @@ func (c *Ctx) idHeadersSurvive() {
 			args := ci.Common().Args
 			switch name {
 			case "(net/http.Header).Del", "(net/http.Header).Set":
+				if d := p.Desc(args[0], nil); strings.Contains(d, "fld:http.Response.Header") {
+					// the backend's response on its way through the reverse proxy (a ModifyResponse hook):
+					// the same headers, one step earlier
+					n++
+					if _, isConst := constStr(args[1]); !isConst || name == "(net/http.Header).Del" {
+						bad = append(bad, p.InstrPos(ci)+": "+p.FuncKey(fn)+" removes or rewrites a header of the backend's response under "+p.Desc(args[1], nil)+": with the ID features disabled the header is the backend's own and must reach the client untouched; enabled, what reaches the client is decided by the ID middleware")
+					}
+					continue
+				}
 				if !strings.Contains(p.Desc(args[0], nil), "ResponseWriter).Header(") {
 					continue
 				}
@@ -1465,7 +1474,26 @@ func (c *Ctx) credentialNonEmpty() {
 				return
 			}
 			var secret ssa.Value
-			for _, pair := range [][2]ssa.Value{{b.X, b.Y}, {b.Y, b.X}} {
+			pairs := [][2]ssa.Value{{b.X, b.Y}, {b.Y, b.X}}
+			// subtle.ConstantTimeCompare([]byte(header), []byte(secret)) == 1 is the same comparison; its
+			// operands have to be the two strings themselves (a copy into a buffer sized after the secret
+			// truncates the header: every key that merely starts with the secret is accepted)
+			for _, side := range []ssa.Value{b.X, b.Y} {
+				if call, isCall := side.(*ssa.Call); isCall && CalleeName(call) == "crypto/subtle.ConstantTimeCompare" && len(call.Call.Args) == 2 {
+					a0, a1 := stripConv(call.Call.Args[0]), stripConv(call.Call.Args[1])
+					pairs = [][2]ssa.Value{{a0, a1}, {a1, a0}}
+					isGet := func(v ssa.Value) bool {
+						g, ok := v.(*ssa.Call)
+						return ok && CalleeName(g) == "(net/http.Header).Get"
+					}
+					if !isGet(a0) && !isGet(a1) {
+						n++
+						c.Fail("credential-nonempty", p.FuncKey(fn)+"/header-equals-secret", p.InstrPos(ifi), "the credential is compared in constant time through a transformed copy of the header value (a buffer, a slice), not the header value itself: truncating or padding it changes which keys are accepted (a key that starts with the secret passes)")
+						return
+					}
+				}
+			}
+			for _, pair := range pairs {
 				if call, isCall := stripConv(pair[0]).(*ssa.Call); isCall && CalleeName(call) == "(net/http.Header).Get" {
 					if strings.Contains(p.Desc(call.Call.Args[0], nil), "http.Request.Header") {
 						secret = stripConv(pair[1])
